@@ -76,7 +76,6 @@ impl<T> Clone for Sender<T> {
 #[verifier::external_body] pub struct ResolvedService { x: u8 }
 #[verifier::external_body] pub struct DaemonOption { x: u8 }
 #[verifier::external_body] pub struct IfPredicate { x: u8 }
-#[verifier::external_body] pub struct DnsRecordIntf { x: u8 }
 
 // std::time::Duration (only as_millis is used by the code under proof)
 #[verifier::external_body]
